@@ -14,6 +14,7 @@ import PyttbModel.Lemmas.CpAlsKnorm
 import Mathlib.Algebra.Order.Ring.Abs
 import Mathlib.Algebra.BigOperators.Group.List.Lemmas
 import Mathlib.Algebra.Order.BigOperators.GroupWithZero.List
+import Mathlib.Analysis.Real.Sqrt
 
 set_option linter.unusedSectionVars false
 set_option linter.unusedSimpArgs false
@@ -863,5 +864,604 @@ theorem sim_init {c : α} {D D' : Data α} (hs : D'.shape = D.shape) {rank : Nat
     rfl, rfl, by simp [initState], rfl, rfl⟩
 
 end loop
+
+/-! ## 9. the final clean-up (`arrange`, `fixsigns`) does not change the array -/
+
+section cleanup
+variable {α : Type} [Field α] [LinearOrder α] [IsStrictOrderedRing α]
+
+theorem prodN_single (N n : Nat) (hn : n < N) (x : α) : prodN N (fun m => if m = n then x else 1) = x := by
+  unfold prodN
+  rw [prod_filter_split N n hn, if_pos rfl, List.prod_eq_one, mul_one]
+  intro y hy
+  simp only [List.mem_map, List.mem_filter, bne_iff_ne, ne_eq] at hy
+  obtain ⟨m, hm, rfl⟩ := hy
+  rw [if_neg hm.2]
+
+/-- replacing factor `n` by a matrix whose column `r` is `x` times the old one -/
+theorem compOf_set_col (U : List (Mat α)) (n : Nat) (hn : n < U.length) (A' : Mat α) (j : List Nat)
+    (hj : j.length = U.length) (r : Nat) (x : α) (h : ∀ i, A'.get i r = (U.getD n []).get i r * x) :
+    compOf (U.set n A') r j = compOf U r j * x := by
+  have := compOf_scale U (U.set n A') j r r (fun m => if m = n then x else 1) (by simp) hj (fun m hm i => by
+    by_cases hmn : m = n
+    · subst hmn; rw [getD_set_eq _ _ _ _ hm, if_pos rfl]; exact h i
+    · rw [getD_set_ne _ _ _ (Ne.symm hmn), if_neg hmn, mul_one])
+  rw [this, prodN_single _ _ hn]
+
+theorem ktensor_get_congr (w w' : List α) (U U' : List (Mat α)) (j : List Nat) (hl : w'.length = w.length)
+    (h : ∀ r < w.length, w'.getD r 0 * compOf U' r j = w.getD r 0 * compOf U r j) :
+    Ktensor.get ⟨w', U'⟩ j = Ktensor.get ⟨w, U⟩ j := by
+  rw [ktensor_get_eq, ktensor_get_eq, hl]
+  exact Finset.sum_congr rfl fun r hr => h r (Finset.mem_range.1 hr)
+
+theorem get_row_ge (A : Mat α) {i : Nat} (hi : A.length ≤ i) (r : Nat) : A.get i r = 0 := by
+  simp [Mat.get, List.getD_eq_getElem?_getD, List.getElem?_eq_none hi]
+
+/-- One mode of `normalize()` leaves the array unchanged. -/
+theorem normalizeMode_get {o : NumOps α} (ho : o.Lawful) (K : Ktensor α) (n : Nat) (hn : n < K.factors.length)
+    (j : List Nat) (hj : j.length = K.factors.length) :
+    (normalizeMode o K n).get j = K.get j := by
+  unfold normalizeMode
+  apply ktensor_get_congr
+  · simp
+  · intro r hr
+    set A := K.factors.getD n [] with hA
+    have ht : ((List.range K.weights.length).map fun r => colNorm2 o A r).getD r 0 = colNorm2 o A r := by
+      simp [List.getD_eq_getElem?_getD, hr]
+    have hw : ((List.range K.weights.length).map fun r => K.weights.getD r 0 *
+        ((List.range K.weights.length).map fun r => colNorm2 o A r).getD r 0).getD r 0 =
+        K.weights.getD r 0 * colNorm2 o A r := by
+      simp [List.getD_eq_getElem?_getD, hr]
+    rw [hw]
+    have hS : 0 ≤ colSq A r := List.sum_nonneg (by
+      intro y hy; simp only [List.mem_map] at hy; obtain ⟨i, _, rfl⟩ := hy; exact mul_self_nonneg _)
+    have htt := ho.sqrt_mul_self _ hS
+    have htn := ho.sqrt_nonneg _ hS
+    rw [← colNorm2_eq] at htt htn
+    by_cases hpos : 0 < colNorm2 o A r
+    · rw [compOf_set_col K.factors n hn _ j hj r (1 / colNorm2 o A r) (fun i => by
+        rw [get_tab_ite]
+        by_cases hi : i < A.length
+        · rw [if_pos ⟨hi, hr⟩, ht, if_pos ((ho.lt_iff _ _).2 hpos), ho.ofNat_eq, Nat.cast_one, mul_comm]
+        · rw [if_neg (fun h => hi h.1), get_row_ge A (Nat.le_of_not_lt hi), zero_mul])]
+      have hne := hpos.ne'
+      field_simp
+    · have hz : colNorm2 o A r = 0 := le_antisymm (not_lt.1 hpos) htn
+      have hS0 : colSq A r = 0 := by rw [← htt, hz, mul_zero]
+      have hcol : ∀ i, A.get i r = 0 := by
+        intro i
+        by_cases hi : i < A.length
+        · exact sum_sq_eq_zero _ (fun i => A.get i r) hS0 i (List.mem_range.2 hi)
+        · exact get_row_ge A (Nat.le_of_not_lt hi) r
+      rw [hz, mul_zero, zero_mul, compOf_zero K.factors j r n hj hn hcol, mul_zero]
+
+theorem normFold_get {o : NumOps α} (ho : o.Lawful) (K : Ktensor α) (j : List Nat) (hj : j.length = K.factors.length)
+    (k : Nat) (hk : k ≤ K.factors.length) :
+    ((List.range k).foldl (normalizeMode o) K).get j = K.get j := by
+  induction k with
+  | zero => simp
+  | succ k ih =>
+    have hlen := (normFold_spec ho K k (by omega)).1
+    rw [List.range_succ, List.foldl_append, List.foldl_cons, List.foldl_nil,
+      normalizeMode_get ho _ k (by rw [hlen]; omega) j (by rw [hlen]; exact hj)]
+    exact ih (by omega)
+
+/-- the sign step of `normalize()`: negative weights are made positive, the column of factor 0 flips -/
+theorem signFlip_get {o : NumOps α} (K1 : Ktensor α) (h0 : 0 < K1.factors.length)
+    (j : List Nat) (hj : j.length = K1.factors.length) :
+    Ktensor.get ⟨K1.weights.map fun w => if o.lt w 0 then - w else w,
+      K1.factors.set 0 (tab (K1.factors.getD 0 []).length K1.weights.length fun i r =>
+        if o.lt (K1.weights.getD r 0) 0 then - (K1.factors.getD 0 []).get i r
+        else (K1.factors.getD 0 []).get i r)⟩ j = K1.get j := by
+  apply ktensor_get_congr
+  · simp
+  · intro r hr
+    have hwr : (K1.weights.map fun w => if o.lt w 0 = true then -w else w).getD r 0 =
+        if o.lt (K1.weights.getD r 0) 0 = true then - K1.weights.getD r 0 else K1.weights.getD r 0 := by
+      simp [List.getD_eq_getElem?_getD, hr]
+    rw [hwr]
+    by_cases hneg : o.lt (K1.weights.getD r 0) 0 = true
+    · rw [compOf_set_col K1.factors 0 h0 _ j hj r (-1) (fun i => by
+        rw [get_tab_ite]
+        by_cases hi : i < (K1.factors.getD 0 []).length
+        · rw [if_pos ⟨hi, hr⟩, if_pos hneg, mul_neg_one]
+        · rw [if_neg (fun h => hi h.1), get_row_ge _ (Nat.le_of_not_lt hi), zero_mul]), if_pos hneg]
+      ring
+    · rw [compOf_set_col K1.factors 0 h0 _ j hj r 1 (fun i => by
+        rw [get_tab_ite]
+        by_cases hi : i < (K1.factors.getD 0 []).length
+        · rw [if_pos ⟨hi, hr⟩, if_neg hneg, mul_one]
+        · rw [if_neg (fun h => hi h.1), get_row_ge _ (Nat.le_of_not_lt hi), zero_mul]), if_neg hneg]
+      ring
+
+/-- `normalize()` leaves the array unchanged (at least one mode). -/
+theorem normalize_get {o : NumOps α} (ho : o.Lawful) (K : Ktensor α) (h0 : 0 < K.factors.length)
+    (j : List Nat) (hj : j.length = K.factors.length) :
+    (normalize o K).get j = K.get j := by
+  have h1 := (normFold_spec ho K K.factors.length le_rfl).1
+  have hfold := normFold_get ho K j hj K.factors.length le_rfl
+  rw [← hfold]
+  exact signFlip_get (o := o) _ (by rw [h1]; exact h0) j (by rw [h1]; exact hj)
+
+/-! ### sorting the components -/
+
+theorem argsortDesc_perm (o : NumOps α) (w : List α) : (argsortDesc o w).Perm (List.range w.length) := by
+  rw [argsortDesc_eq]
+  have h1 : ((sortedPairsW o w).reverse.map (·.1)).Perm (((List.range w.length).zip w).map (·.1)) :=
+    ((List.reverse_perm _).trans (sortedPairsW_perm o w)).map _
+  have h2 : ((List.range w.length).zip w).map (·.1) = List.range w.length :=
+    List.map_fst_zip (by simp)
+  rw [h2] at h1
+  exact h1
+
+theorem map_getD_range {β : Type} (p : List Nat) (g : Nat → β) :
+    (List.range p.length).map (fun r => g (p.getD r 0)) = p.map g := by
+  apply List.ext_getElem
+  · simp
+  · intro i h1 h2
+    simp only [List.length_map, List.length_range] at h1
+    simp [List.getD_eq_getElem?_getD, h1]
+
+theorem prodN_one (N : Nat) : prodN N (fun _ => (1 : α)) = 1 := by
+  unfold prodN
+  exact List.prod_eq_one (by intro x hx; simp only [List.mem_map] at hx; obtain ⟨_, _, rfl⟩ := hx; rfl)
+
+/-- Selecting the components in the order `p`, a permutation of `0..R-1`, leaves the array unchanged. -/
+theorem permuteComponents_get (K : Ktensor α) (p : List Nat) (hp : p.Perm (List.range K.weights.length))
+    (j : List Nat) (hj : j.length = K.factors.length) :
+    (permuteComponents K p).get j = K.get j := by
+  have hterm : ∀ r < p.length,
+      (p.map fun r => K.weights.getD r 0).getD r 0 *
+        compOf (K.factors.map fun A => tab A.length p.length fun i r => A.get i (p.getD r 0)) r j =
+      K.weights.getD (p.getD r 0) 0 * compOf K.factors (p.getD r 0) j := by
+    intro r hr
+    have e1 : (p.map fun r => K.weights.getD r 0).getD r 0 = K.weights.getD (p.getD r 0) 0 := by
+      simp [List.getD_eq_getElem?_getD, hr]
+    rw [e1, compOf_scale K.factors _ j (p.getD r 0) r (fun _ => 1) (by simp) hj (fun m hm i => by
+      have : (K.factors.map fun A => tab A.length p.length fun i r => A.get i (p.getD r 0)).getD m [] =
+          tab (K.factors.getD m []).length p.length fun i r => (K.factors.getD m []).get i (p.getD r 0) := by
+        simp [List.getD_eq_getElem?_getD, hm]
+      rw [this, get_tab_ite, mul_one]
+      by_cases hi : i < (K.factors.getD m []).length
+      · rw [if_pos ⟨hi, hr⟩]
+      · rw [if_neg (fun h => hi h.1), get_row_ge _ (Nat.le_of_not_lt hi)]), prodN_one, mul_one]
+  have h1 : (permuteComponents K p).get j =
+      ((List.range p.length).map fun r => K.weights.getD (p.getD r 0) 0 * compOf K.factors (p.getD r 0) j).sum := by
+    unfold Ktensor.get Ktensor.ncomp permuteComponents
+    simp only [List.length_map]
+    congr 1
+    refine List.map_congr_left fun r hr => ?_
+    exact hterm r (List.mem_range.1 hr)
+  rw [h1, map_getD_range p (fun r' => K.weights.getD r' 0 * compOf K.factors r' j)]
+  exact (hp.map _).sum_eq
+
+/-- `arrange()` leaves the array unchanged, whatever the order the sort chooses among equal weights. -/
+theorem arrange_get {o : NumOps α} (ho : o.Lawful) (K : Ktensor α) (h0 : 0 < K.factors.length)
+    (j : List Nat) (hj : j.length = K.factors.length) :
+    (arrange o K).get j = K.get j := by
+  have hn := normalize_spec ho K
+  unfold arrange
+  simp only
+  rw [permuteComponents_get _ _ (argsortDesc_perm o _) j (by rw [hn.1]; exact hj)]
+  exact normalize_get ho K h0 j hj
+
+/-! ### fixing the signs -/
+
+theorem sign_prod (l F : List Nat) (hl : l.Nodup) (hF : F.Sublist l) :
+    (l.map fun m => if F.contains m then (-1 : α) else 1).prod = (-1) ^ F.length := by
+  induction hF with
+  | slnil => simp
+  | cons a h ih =>
+    rename_i F' l'
+    have hnd := List.nodup_cons.1 hl
+    have ha : a ∉ F' := fun hm => hnd.1 (h.subset hm)
+    rw [List.map_cons, List.prod_cons, ih hnd.2]
+    simp [ha]
+  | cons_cons a h ih =>
+    rename_i F' l'
+    have hnd := List.nodup_cons.1 hl
+    rw [List.map_cons, List.prod_cons]
+    have hrest : (l'.map fun m => if (a :: F').contains m then (-1 : α) else 1) =
+        l'.map fun m => if F'.contains m then (-1 : α) else 1 := by
+      refine List.map_congr_left fun m hm => ?_
+      have hma : m ≠ a := fun e => hnd.1 (e ▸ hm)
+      simp [hma]
+    rw [hrest, ih hnd.2]
+    simp [pow_succ]
+
+theorem flippedModes_spec (o : NumOps α) (K : Ktensor α) (r : Nat) :
+    (flippedModes o K r).Sublist (List.range K.factors.length) ∧ Even (flippedModes o K r).length := by
+  unfold flippedModes
+  simp only
+  refine ⟨(List.take_sublist _ _).trans List.filter_sublist, ?_⟩
+  rw [List.length_take, Nat.min_eq_left (by omega)]
+  exact ⟨_, (Nat.two_mul _)⟩
+
+/-- `fixsigns()` leaves the array unchanged (an even number of sign flips per component). -/
+theorem fixsigns_get (o : NumOps α) (K : Ktensor α) (j : List Nat) (hj : j.length = K.factors.length) :
+    (fixsigns o K).get j = K.get j := by
+  unfold fixsigns
+  apply ktensor_get_congr
+  · rfl
+  · intro r hr
+    obtain ⟨hsub, heven⟩ := flippedModes_spec o K r
+    rw [compOf_scale K.factors _ j r r (fun m => if (flippedModes o K r).contains m then -1 else 1) (by simp) hj
+      (fun m hm i => by
+        have : ((List.range K.factors.length).map fun n =>
+            tab (K.factors.getD n []).length K.weights.length fun i r =>
+              if (flippedModes o K r).contains n then - (K.factors.getD n []).get i r
+              else (K.factors.getD n []).get i r).getD m [] =
+            tab (K.factors.getD m []).length K.weights.length fun i r =>
+              if (flippedModes o K r).contains m then - (K.factors.getD m []).get i r
+              else (K.factors.getD m []).get i r := by
+          simp [List.getD_eq_getElem?_getD, hm]
+        rw [this, get_tab_ite]
+        by_cases hi : i < (K.factors.getD m []).length
+        · rw [if_pos ⟨hi, hr⟩]
+          split <;> ring
+        · rw [if_neg (fun h => hi h.1), get_row_ge _ (Nat.le_of_not_lt hi), zero_mul])]
+    unfold prodN
+    rw [sign_prod _ _ List.nodup_range hsub, heven.neg_one_pow, mul_one]
+
+/-- The whole clean-up leaves the array unchanged. -/
+theorem cleanup_get {o : NumOps α} (ho : o.Lawful) (fix : Bool) (K : Ktensor α) (h0 : 0 < K.factors.length)
+    (j : List Nat) (hj : j.length = K.factors.length) :
+    (cleanup o fix K).get j = K.get j := by
+  unfold cleanup
+  cases fix with
+  | false => exact arrange_get ho K h0 j hj
+  | true =>
+    simp only [if_true]
+    rw [fixsigns_get o _ j (by rw [(arrange_spec ho K).1]; exact hj)]
+    exact arrange_get ho K h0 j hj
+
+end cleanup
+
+/-! ## 10. the whole run -/
+
+section wholerun
+variable {α : Type} [Field α] [LinearOrder α] [IsStrictOrderedRing α]
+
+/-- Every coefficient matrix met by the FIRST run (data `X`) is zero or non-singular. -/
+def RegularRun (D : Data α) (S : Services α) (o : NumOps α) (P : Params α) (init : Init α) : Prop :=
+  ∀ di od dims K, setup D P init = .ok (di, od, dims, K) →
+    RegularLoop D S o P.rank P.stoptol dims P.maxiters 0 (initState D P.rank dims K)
+
+/-- The set-up looks at the data only through its shape (and `nvecs` for that kind of start). -/
+theorem setup_scaled {D D' : Data α} (hs : D'.shape = D.shape) (P : Params α) (init : Init α)
+    (hnv : init = .nvecs → D'.nvecs = D.nvecs) : setup D' P init = setup D P init := by
+  have hri : ∀ dimorder, resolveInit D' P.rank dimorder init = resolveInit D P.rank dimorder init := by
+    intro dimorder
+    cases init with
+    | given K => simp only [resolveInit, hs]
+    | random draws => simp only [resolveInit, hs]
+    | nvecs => simp only [resolveInit, hs, hnv rfl]
+    | unsupported => rfl
+  unfold setup
+  simp only [hs, hri]
+
+theorem cleanup_shape {o : NumOps α} (ho : o.Lawful) (fix : Bool) {s : List Nat} (K : Ktensor α)
+    (hK : ShapeOK s K.weights.length K.factors) :
+    ShapeOK s (cleanup o fix K).weights.length (cleanup o fix K).factors := by
+  obtain ⟨c1, c2, c3, _, _, _, c7⟩ := cleanup_spec ho fix K
+  refine ⟨by rw [c1]; exact hK.1, fun n hn => ⟨by rw [c3]; exact (hK.2 n hn).1, fun row hrow => ?_⟩⟩
+  rw [c7 n (by rw [hK.1]; exact hn) row hrow, c2]
+
+theorem finish_report (D : Data α) (o : NumOps α) (P : Params α) (di od : List Nat) (K : Ktensor α) (st : State α) :
+    ((finish D o P di od K st).normresidual, (finish D o P di od K st).fit) =
+      if P.printing then
+        report o D.norm (knorm o (cleanup o P.fixsigns ⟨st.weights, st.U⟩).weights
+          (cleanup o P.fixsigns ⟨st.weights, st.U⟩).factors) (D.innerprod (cleanup o P.fixsigns ⟨st.weights, st.U⟩))
+      else (st.normresidual, st.fit) := by
+  unfold finish cleanup
+  cases P.printing <;> rfl
+
+/-- **Whole-run scale equivariance of CP-ALS** (lemma form; see `C18_scale_cpals_run`). -/
+theorem run_scaled {D D' : Data α} {S : Services α} {o : NumOps α} {X : List Nat → α} {c : α}
+    (ho : o.Lawful) (hS : SolveContract S) (hc : 0 < c) (hD : DataLaws D X)
+    (hD' : DataLaws D' (fun j => c * X j)) (hs : D'.shape = D.shape)
+    (hnorm : D'.norm = c * D.norm) (hnz : D.norm ≠ 0) {P : Params α} {init : Init α}
+    (hnv : init = .nvecs → D'.nvecs = D.nvecs) (hi : InitOK D P.rank init)
+    (hreg : RegularRun D S o P init) {out out' : Output α}
+    (h : run D S o P init = .ok out) (h' : run D' S o P init = .ok out') :
+    out'.iters = out.iters ∧ out'.fit = out.fit ∧ out'.normresidual = c * out.normresidual ∧
+    (∀ j, j.length = D.shape.length → out'.M.get j = c * out.M.get j) ∧
+    out'.init = out.init ∧ out'.dimorder = out.dimorder ∧ out'.optdims = out.optdims ∧
+    ∃ st st' : State α, Sim c D.shape P.rank st st' ∧
+      out.M = cleanup o P.fixsigns ⟨st.weights, st.U⟩ ∧ out'.M = cleanup o P.fixsigns ⟨st'.weights, st'.U⟩ := by
+  obtain ⟨di, od, dims, K, st, hsu, hm, hl, rfl⟩ := run_ok h
+  obtain ⟨di', od', dims', K', st', hsu', _, hl', rfl⟩ := run_ok h'
+  rw [setup_scaled hs P init hnv, hsu] at hsu'
+  simp only [Except.ok.injEq, Prod.mk.injEq] at hsu'
+  obtain ⟨rfl, rfl, rfl, rfl⟩ := hsu'
+  obtain ⟨hK, _, hne, _, hperm, hdimsEq, _⟩ := setup_spec hsu hi
+  have hdims : ∀ n ∈ dims, n < D.shape.length := by
+    intro n hn
+    rw [hdimsEq] at hn
+    exact isPermOf_lt hperm _ (List.mem_filter.1 hn).1
+  obtain ⟨hsim, hwl⟩ := loop_sim ho hS hc hD hD' hs hnorm hnz hne hdims P.maxiters 0
+    (sim_init hs dims hK) (hreg di od dims K hsu) hl hl'
+  have hw : st.weights.length = P.rank := hwl (Nat.pos_of_ne_zero hm)
+  have hw' : st'.weights.length = P.rank := by rw [hsim.wlen]; exact hw
+  have hN : 0 < D.shape.length := by
+    have := hdims _ (getLastD_mem hne); omega
+  have hten : ∀ j, j.length = D.shape.length →
+      (cleanup o P.fixsigns ⟨st'.weights, st'.U⟩).get j = c * (cleanup o P.fixsigns ⟨st.weights, st.U⟩).get j := by
+    intro j hj
+    rw [cleanup_get ho _ _ (by show 0 < st'.U.length; rw [hsim.shape'.1]; exact hN) j
+        (by show j.length = st'.U.length; rw [hsim.shape'.1]; exact hj),
+      cleanup_get ho _ _ (by show 0 < st.U.length; rw [hsim.shape.1]; exact hN) j
+        (by show j.length = st.U.length; rw [hsim.shape.1]; exact hj)]
+    exact hsim.tensor hw j hj
+  have hrep : ((finish D' o P di od K st').normresidual, (finish D' o P di od K st').fit) =
+      (c * (finish D o P di od K st).normresidual, (finish D o P di od K st).fit) := by
+    have e := finish_report D o P di od K st
+    have e' := finish_report D' o P di od K st'
+    cases hp : P.printing with
+    | false =>
+      rw [hp] at e e'
+      simp only [Bool.false_eq_true, if_false, Prod.mk.injEq] at e e'
+      rw [e.1, e.2, e'.1, e'.2, hsim.normresidual, hsim.fit]
+    | true =>
+      rw [hp] at e e'
+      simp only [if_true] at e e'
+      set M := cleanup o P.fixsigns ⟨st.weights, st.U⟩ with hM
+      set M' := cleanup o P.fixsigns ⟨st'.weights, st'.U⟩ with hM'
+      have hMs : ShapeOK D.shape M.weights.length M.factors :=
+        cleanup_shape ho _ _ (by show ShapeOK D.shape st.weights.length st.U; rw [hw]; exact hsim.shape)
+      have hMs' : ShapeOK D.shape M'.weights.length M'.factors :=
+        cleanup_shape ho _ _ (by show ShapeOK D.shape st'.weights.length st'.U; rw [hw']; exact hsim.shape')
+      have hkn := knorm_scaled ho hc D.shape M.weights M'.weights M.factors M'.factors hMs hMs' hten
+      have hip : D'.innerprod M' = c * c * D.innerprod M := by
+        rw [hD'.innerprod_eq M' (by rw [hs]; exact hMs'), hD.innerprod_eq M hMs, hs]
+        exact ip_scale_data_model D.shape X _ _ c hten
+      have hr := report_scale ho hc D.norm (knorm o M.weights M.factors) (D.innerprod M) hnz
+      rw [← hnorm, ← hkn, ← hip] at hr
+      have e1 := congrArg Prod.fst e
+      have e2 := congrArg Prod.snd e
+      have e1' := congrArg Prod.fst e'
+      have e2' := congrArg Prod.snd e'
+      simp only at e1 e2 e1' e2'
+      rw [e1, e2, e1', e2', hr.1, hr.2]
+  simp only [Prod.mk.injEq] at hrep
+  refine ⟨hsim.iteration, hrep.2, hrep.1, hten, rfl, rfl, rfl, st, st', hsim, rfl, rfl⟩
+
+end wholerun
+
+/-! ## 11. rank one: regularity is automatic; a total solver; a concrete instance -/
+
+section rankone
+variable {α : Type} [Field α] [LinearOrder α] [IsStrictOrderedRing α]
+
+theorem coef_one_ne_zero {o : NumOps α} (ho : o.Lawful) (UtU : List (Mat α)) (N n : Nat)
+    (hz : ¬ allZero o (coef UtU N 1 n) = true) : (coef UtU N 1 n).get 0 0 ≠ 0 := by
+  intro e
+  apply hz
+  rw [allZero_coef_iff ho]
+  intro a ha b hb
+  have ha0 : a = 0 := by omega
+  have hb0 : b = 0 := by omega
+  subst ha0; subst hb0
+  exact e
+
+/-- For rank one the coefficient matrix is `1 × 1`: zero or non-singular. -/
+theorem regularY_one {o : NumOps α} (ho : o.Lawful) (UtU : List (Mat α)) (N n : Nat) :
+    RegularY o (coef UtU N 1 n) 1 := by
+  intro hz
+  exact leftInj_one_by_one (coef_one_ne_zero ho UtU N n (by simp [hz])) _ rfl
+
+theorem regularSweep_one {o : NumOps α} (ho : o.Lawful) (D : Data α) (S : Services α) (it last : Nat)
+    (dims : List Nat) (st : State α) : RegularSweep D S o 1 it last dims st := by
+  induction dims generalizing st with
+  | nil => trivial
+  | cons n rest ih => exact ⟨regularY_one ho _ _ _, fun st1 _ => ih st1⟩
+
+theorem regularLoop_one {o : NumOps α} (ho : o.Lawful) (D : Data α) (S : Services α) (stoptol : α)
+    (dims : List Nat) (fuel k : Nat) (st : State α) : RegularLoop D S o 1 stoptol dims fuel k st := by
+  induction fuel generalizing k st with
+  | zero => trivial
+  | succ fuel ih => exact ⟨regularSweep_one ho D S k _ dims st, fun st1 _ _ => ih (k + 1) st1⟩
+
+/-- For rank one the regularity hypothesis of `run_scaled` holds for every data object. -/
+theorem regularRun_one {o : NumOps α} (ho : o.Lawful) (D : Data α) (S : Services α) (P : Params α)
+    (init : Init α) (hr : P.rank = 1) : RegularRun D S o P init := by
+  intro di od dims K _
+  rw [hr]
+  exact regularLoop_one ho D S _ dims _ _ _
+
+/-- A solver for `1 × 1` systems: `B / y`; it refuses everything else. -/
+def solve1 : Services α :=
+  { solve := fun _ Y B =>
+      if Y.length = 1 ∧ Y.get 0 0 ≠ 0 then .ok (B.map fun row => row.map (· / Y.get 0 0)) else .error .reject }
+
+theorem get_map_div (B : Mat α) (y : α) (i r : Nat) :
+    Mat.get (B.map fun row => row.map (· / y)) i r = B.get i r / y := by
+  unfold Mat.get
+  simp only [List.getD_eq_getElem?_getD, List.getElem?_map]
+  cases B[i]? with
+  | none => simp
+  | some row =>
+    simp only [Option.map_some, Option.getD_some, List.getElem?_map]
+    cases row[r]? <;> simp
+
+theorem solve1_contract : SolveContract (solve1 : Services α) := by
+  intro n Y B A h R i r hR hr
+  unfold solve1 at h
+  simp only at h
+  split at h
+  · rename_i hc
+    simp only [Except.ok.injEq] at h
+    subst h
+    have hR1 : R = 1 := by rw [← hR]; exact hc.1
+    subst hR1
+    have hr0 : r = 0 := by omega
+    subst hr0
+    simp only [sumRange_eq, Finset.sum_range_one]
+    rw [get_map_div, div_mul_cancel₀ _ hc.2]
+  · cases h
+
+theorem solveStep_ok1 {o : NumOps α} (ho : o.Lawful) (I n : Nat) (UtU : List (Mat α)) (N : Nat) (B : Mat α) :
+    ∃ A0, solveStep (solve1 : Services α) o I 1 n (coef UtU N 1 n) B = .ok A0 := by
+  unfold solveStep
+  by_cases hz : allZero o (coef UtU N 1 n) = true
+  · rw [if_pos hz]; exact ⟨_, rfl⟩
+  · rw [if_neg hz]
+    unfold solve1
+    simp only
+    rw [if_pos ⟨length_coef _ _ _ _, coef_one_ne_zero ho UtU N n hz⟩]
+    exact ⟨_, rfl⟩
+
+theorem modeUpdate_ok1 {o : NumOps α} (ho : o.Lawful) (D : Data α) (it last n : Nat) (st : State α) :
+    ∃ st1, modeUpdate D (solve1 : Services α) o 1 it last n st = .ok st1 := by
+  unfold modeUpdate
+  obtain ⟨A0, hA0⟩ := solveStep_ok1 ho (D.shape.getD n 0) n st.UtU D.shape.length (D.mttkrp st.U n)
+  dsimp only
+  rw [hA0]
+  exact ⟨_, rfl⟩
+
+theorem foldlM_ok1 {o : NumOps α} (ho : o.Lawful) (D : Data α) (it last : Nat) (dims : List Nat) (st : State α) :
+    ∃ st1, dims.foldlM (fun s n => modeUpdate D (solve1 : Services α) o 1 it last n s) st = .ok st1 := by
+  induction dims generalizing st with
+  | nil => exact ⟨st, rfl⟩
+  | cons n rest ih =>
+    obtain ⟨s1, hs1⟩ := modeUpdate_ok1 ho D it last n st
+    obtain ⟨s2, hs2⟩ := ih s1
+    refine ⟨s2, ?_⟩
+    rw [List.foldlM_cons, hs1]
+    exact hs2
+
+theorem iterStep_ok1 {o : NumOps α} (ho : o.Lawful) (D : Data α) (stoptol : α) (dims : List Nat) (it : Nat)
+    (st : State α) : ∃ st2, iterStep D (solve1 : Services α) o 1 stoptol dims it st = .ok st2 := by
+  unfold iterStep
+  obtain ⟨s1, hs1⟩ := foldlM_ok1 ho D it (dims.getLastD 0) dims st
+  dsimp only
+  rw [hs1]
+  exact ⟨_, rfl⟩
+
+theorem loopFrom_ok1 (step : Nat → State α → Except Reject (State α))
+    (hstep : ∀ k st, ∃ st1, step k st = .ok st1) (fuel k : Nat) (st : State α) :
+    ∃ stF, loopFrom step fuel k st = .ok stF := by
+  induction fuel generalizing k st with
+  | zero => exact ⟨st, rfl⟩
+  | succ fuel ih =>
+    obtain ⟨s1, hs1⟩ := hstep k st
+    unfold loopFrom
+    rw [hs1]
+    simp only [bind, Except.bind]
+    by_cases hstop : s1.stop = true
+    · rw [if_pos hstop]; exact ⟨_, rfl⟩
+    · rw [if_neg hstop]; exact ih (k + 1) s1
+
+/-- With the `1 × 1` solver a rank-one run that passes the set-up never fails. -/
+theorem run_ok1 {o : NumOps α} (ho : o.Lawful) (D : Data α) (P : Params α) (init : Init α)
+    {di od dims : List Nat} {K : Ktensor α} (hsu : setup D P init = .ok (di, od, dims, K))
+    (hm : P.maxiters ≠ 0) (hr : P.rank = 1) : ∃ out, run D (solve1 : Services α) o P init = .ok out := by
+  obtain ⟨stF, hF⟩ := loopFrom_ok1 (iterStep D (solve1 : Services α) o P.rank P.stoptol dims)
+    (fun k st => by rw [hr]; exact iterStep_ok1 ho D _ dims k st) P.maxiters 0 (initState D P.rank dims K)
+  refine ⟨finish D o P di od K stF, ?_⟩
+  unfold run
+  rw [hsu]
+  have : (P.maxiters == 0) = false := by simpa using hm
+  simp only [bind, Except.bind, this, Bool.false_eq_true, if_false, hF, pure, Except.pure]
+
+end rankone
+
+/-! ## 12. a concrete instance -/
+
+section concrete
+variable {α : Type} [Field α] [LinearOrder α] [IsStrictOrderedRing α]
+
+/-- the `1 × 1` array with the single entry `x`, as a data object -/
+def data11 (x : α) : Data α :=
+  { shape := [1, 1], norm := x,
+    mttkrp := fun U n => match n with
+      | 0 => [((U.getD 1 []).getD 0 []).map (x * ·)]
+      | 1 => [((U.getD 0 []).getD 0 []).map (x * ·)]
+      | _ => [],
+    innerprod := fun K => x * K.get [0, 0], nvecs := none }
+
+theorem getD_map_mul (l : List α) (x : α) (r : Nat) : (l.map (x * ·)).getD r 0 = x * l.getD r 0 := by
+  simp only [List.getD_eq_getElem?_getD, List.getElem?_map]
+  cases l[r]? <;> simp
+
+theorem data11_laws (x : α) : DataLaws (data11 x) (fun _ => x) := by
+  have hall : allSubs [1, 1] = [[0, 0]] := by decide
+  have hip : ∀ f : List Nat → α, ip [1, 1] (fun _ => x) f = x * f [0, 0] := by
+    intro f; simp [ip, hall]
+  refine ⟨fun K _ => ?_, fun w U n hn hU => ?_, fun U n A => ?_⟩
+  · change x * K.get [0, 0] = ip [1, 1] _ _
+    rw [hip]
+  · change ip [1, 1] _ _ = _
+    rw [hip, ktensor_get_eq]
+    obtain ⟨hl, _⟩ := hU
+    change U.length = 2 at hl
+    match U, hl with
+    | [U0, U1], _ =>
+      change n < 2 at hn
+      simp only [sumRange_eq]
+      rw [Finset.mul_sum]
+      refine Finset.sum_congr rfl fun r _ => ?_
+      rcases n with _ | _ | n
+      · change _ = ∑ i ∈ Finset.range 1, _
+        rw [Finset.sum_range_one]
+        simp only [data11, compOf, Mat.get, List.zipWith_cons_cons, List.zipWith_nil_right, List.prod_cons,
+          List.prod_nil, List.getD_cons_zero, List.getD_cons_succ, getD_map_mul]
+        ring
+      · change _ = ∑ i ∈ Finset.range 1, _
+        rw [Finset.sum_range_one]
+        simp only [data11, compOf, Mat.get, List.zipWith_cons_cons, List.zipWith_nil_right, List.prod_cons,
+          List.prod_nil, List.getD_cons_zero, List.getD_cons_succ, getD_map_mul]
+        ring
+      · omega
+  · rcases n with _ | _ | n
+    · simp only [data11]
+      rw [getD_set_ne _ _ _ (by decide)]
+    · simp only [data11]
+      rw [getD_set_ne _ _ _ (by decide)]
+    · rfl
+
+/-- options: rank one, two passes (`stoptol = 0` never stops early), report recomputed, signs fixed -/
+def params11 : Params α :=
+  { rank := 1, stoptol := 0, maxiters := 2, dimorder := none, optdims := none, printing := true, fixsigns := true }
+
+/-- start: all ones -/
+def start11 : Ktensor α := ⟨[1], [[[1]], [[1]]]⟩
+
+theorem setup11 (x : α) :
+    setup (data11 x) params11 (.given start11) = .ok ([0, 1], [0, 1], [0, 1], start11) := by
+  rfl
+
+/-- ℝ-free non-vacuity: over every ordered field with a lawful `NumOps`, the `1 × 1` array `[[x]]`,
+`x ≠ 0`, and its multiple `c · x` satisfy all hypotheses of `run_scaled`, and both runs succeed. -/
+theorem instance11 {o : NumOps α} (ho : o.Lawful) (x c : α) (hx : x ≠ 0) :
+    ∃ out out' : Output α,
+      SolveContract (solve1 : Services α) ∧ DataLaws (data11 x) (fun _ => x) ∧
+      DataLaws (data11 (c * x)) (fun j => c * (fun _ => x) j) ∧ (data11 (c * x)).shape = (data11 x).shape ∧
+      (data11 (c * x)).norm = c * (data11 x).norm ∧ (data11 x).norm ≠ 0 ∧
+      ((Init.given start11 : Init α) = .nvecs → (data11 (c * x)).nvecs = (data11 x).nvecs) ∧
+      InitOK (data11 x) (params11 : Params α).rank (.given start11) ∧
+      RegularRun (data11 x) solve1 o params11 (.given start11) ∧
+      run (data11 x) solve1 o params11 (.given start11) = .ok out ∧
+      run (data11 (c * x)) solve1 o params11 (.given start11) = .ok out' := by
+  obtain ⟨out, hout⟩ := run_ok1 ho (data11 x) params11 (.given start11) (setup11 x) (Nat.succ_ne_zero 1) rfl
+  obtain ⟨out', hout'⟩ := run_ok1 ho (data11 (c * x)) params11 (.given start11) (setup11 (c * x)) (Nat.succ_ne_zero 1) rfl
+  exact ⟨out, out', solve1_contract, data11_laws x, data11_laws (c * x), rfl, rfl, hx, (fun h => by cases h), trivial,
+    regularRun_one ho _ _ _ _ rfl, hout, hout'⟩
+end concrete
+
+/-! ### ℝ with `Real.sqrt` is a lawful number system -/
+
+/-- ℝ with `Real.sqrt` as the number system of the model. -/
+noncomputable def realNumOps : NumOps ℝ :=
+  { sqrt := Real.sqrt, abs := fun x => |x|, lt := fun a b => decide (a < b),
+    isZero := fun a => decide (a = 0), ofNat := fun n => (n : ℝ) }
+
+theorem realNumOps_lawful : realNumOps.Lawful :=
+  { sqrt_nonneg := fun x _ => Real.sqrt_nonneg x,
+    sqrt_mul_self := fun _ hx => Real.mul_self_sqrt hx,
+    abs_eq := fun _ => rfl,
+    lt_iff := fun a b => by simp [realNumOps],
+    isZero_iff := fun a => by simp [realNumOps],
+    ofNat_eq := fun _ => rfl }
 
 end Pyttb.CpAls
